@@ -5,6 +5,19 @@ import json
 import os
 import sys
 
+_COUNTER = os.environ.get('VP_EQSPAWN_BOOTSTRAP_COUNTER')
+if __name__ == '__mp_main__' and _COUNTER:
+    # bootstrap of a spawned worker (the main module is imported as __mp_main__ there): the N-th bootstrap of the run is lost the hard
+    # way, before the worker reaches its entry point (an import that is OOM-killed, a main module that cannot be imported in the child)
+    import multiprocessing as _mp
+    if _mp.current_process().name == 'Playback runner':
+        with open(_COUNTER, 'r+') as _f:
+            _n = int(_f.read() or 0) + 1
+            _f.seek(0)
+            _f.write(str(_n))
+        if _n == int(os.environ.get('VP_EQSPAWN_BOOTSTRAP_DIES', '0')):
+            os._exit(1)
+
 sys.path.insert(0, os.path.dirname(os.path.dirname(os.path.abspath(__file__))))
 from vlib import env   # noqa
 
@@ -64,7 +77,7 @@ def run(case, dedicated):
         kw['comparison_data_extractor'] = comparison_data_extractor
     eq = Equalizer(ids if case.get('ids_as_list') else iter(ids), player, result_extractor, comparator,
                    compare_execution_config=CompareExecutionConfig(keep_results_in_comparison=case.get('keep', True), compare_in_dedicated_process=dedicated,
-                                                                   compare_process_timeout=120, compare_process_recycle_rate=case.get('recycle', 5)), **kw)
+                                                                   compare_process_timeout=case.get('timeout', 120), compare_process_recycle_rate=case.get('recycle', 5)), **kw)
     out = []
     for c in eq.run_comparison():
         st = c.comparator_status
@@ -79,8 +92,13 @@ def main():
     mp.set_start_method(case['start_method'])
     res = {'error': None}
     try:
-        res['ids'], res['in_process'] = run(case, False)
-        _, res['dedicated'] = run(case, True)
+        if case.get('only_dedicated'):
+            res['ids'], res['dedicated'] = run(case, True)
+            import time as _t
+            _t.sleep(1.0)          # (an idle worker needs up to 50 ms to notice the end of the run)
+        else:
+            res['ids'], res['in_process'] = run(case, False)
+            _, res['dedicated'] = run(case, True)
     except BaseException as ex:  # noqa
         res['error'] = '%s: %s' % (type(ex).__name__, str(ex)[:300])
     res['leftover_children'] = [p.name for p in mp.active_children() if p.name != 'SyncManager-1' and 'forkserver' not in p.name.lower()]
